@@ -589,6 +589,19 @@ class BaseIOStream:
                 else:
                     if pos is not None:
                         self._read_from_buffer(pos)
+            if self._read_future is not None:
+                # The pending read cannot be completed any more. Forget its
+                # parameters so that a later read from the buffer is not
+                # matched against them, and take bytes already received into
+                # a read_into() buffer back into our own buffer.
+                if self._user_read_buffer:
+                    self._read_buffer = bytearray(
+                        memoryview(self._read_buffer)[: self._read_buffer_size]
+                    )
+                    self._after_user_read_buffer = None
+                    self._user_read_buffer = False
+                self._read_bytes = self._read_delimiter = self._read_regex = None
+                self._read_partial = False
             if self._state is not None:
                 self.io_loop.remove_handler(self.fileno())
                 self._state = None
